@@ -84,7 +84,7 @@ fn opt_sec_header(t: &mut Toks) -> Result<Option<SecurityBlockHeader>, &'static 
     Ok(Some((ty, num, fl)))
 }
 
-fn make_ippt(flags: u16, primary: &Option<PrimaryBlock>, sh: &Option<SecurityBlockHeader>, target: &CanonicalBlock) -> Vec<u8> {
+fn new_ippt(flags: u16, primary: &Option<PrimaryBlock>, sh: &Option<SecurityBlockHeader>) -> bp7::security::IntegrityProtectedPlaintext {
     let mut b = IpptBuilder::new().scope_flags(flags);
     if let Some(p) = primary {
         b = b.primary_block(p.clone());
@@ -92,9 +92,26 @@ fn make_ippt(flags: u16, primary: &Option<PrimaryBlock>, sh: &Option<SecurityBlo
     if let Some(h) = sh {
         b = b.security_header(*h);
     }
-    let mut ippt = b.build();
+    b.build()
+}
+/// One plaintext from a fresh object.  `create` takes `&mut self`, so the object can be used again: the same call repeated on the
+/// same object must give the same plaintext (an empty vector marks the case where it does not - never a valid IPPT).
+fn make_ippt(flags: u16, primary: &Option<PrimaryBlock>, sh: &Option<SecurityBlockHeader>, target: &CanonicalBlock) -> Vec<u8> {
+    let mut ippt = new_ippt(flags, primary, sh);
     let _q = Quiet::new();
-    ippt.create(target)
+    let first = ippt.create(target);
+    let second = ippt.create(target);
+    if first == second {
+        first
+    } else {
+        Vec::new()
+    }
+}
+/// The plaintexts of several targets from ONE object (the way an application signs a multi-target BIB).
+fn make_ippts(flags: u16, primary: &Option<PrimaryBlock>, sh: &Option<SecurityBlockHeader>, targets: &[&CanonicalBlock]) -> Vec<Vec<u8>> {
+    let mut ippt = new_ippt(flags, primary, sh);
+    let _q = Quiet::new();
+    targets.iter().map(|t| ippt.create(t)).collect()
 }
 
 /// IPPT <scope flags> <primary | -> <H type num flags | -> <canonical>   ->   OK x<ippt>
@@ -267,13 +284,15 @@ pub fn bib(args: &[&str]) -> String {
 
     let sh: SecurityBlockHeader = (INTEGRITY_BLOCK, bib_num, bib_flags);
     let primary = Some(bundle.primary.clone());
-    let mut ippts: Vec<(u64, Vec<u8>)> = Vec::new();
+    let mut ippt_targets: Vec<&CanonicalBlock> = Vec::new();
     for n in &ippt_nums {
         match bundle.canonicals.iter().find(|c| c.block_number == *n) {
-            Some(c) => ippts.push((*n, make_ippt(flags, &primary, &Some(sh), c))),
+            Some(c) => ippt_targets.push(c),
             None => return "NOBLOCK".into(),
         }
     }
+    let ippts: Vec<(u64, Vec<u8>)> =
+        ippt_nums.iter().cloned().zip(make_ippts(flags, &primary, &Some(sh), &ippt_targets)).collect();
     let mut old_ippts: Vec<([u8; 16], Vec<(u64, Vec<u8>)>)> = Vec::new();
     for (k16, nums) in &rounds16 {
         let mut l: Vec<(u64, Vec<u8>)> = Vec::new();
